@@ -9,7 +9,11 @@ EXPLANATION = (
     "BadHashError - a new value is stored only when the node was empty; (d) upward propagation: for every node "
     "but the root, a missing sibling raises NotEnoughHashesError, the parent is pair_hash(left,right) of the "
     "sorted (node, sibling) pair, a known parent is compared (mismatch raises), an unknown parent is stored AND "
-    "enqueued one level up; the only `continue` is the root; levels are visited bottom-up; (e) index algebra of "
+    "enqueued one level up; the only `continue` is the root; levels are visited bottom-up, and the levels visited "
+    "do not depend on what the work list held when the loop over levels started (a snapshot of the keys of a mapping "
+    "that is filled on demand, of its length, or of the non-empty levels misses every level that receives its first "
+    "entry - a computed parent - during the walk, so that entry is never dequeued and stays unvalidated); with such "
+    "an on-demand mapping the first level visited must be at least depth_of(len(self)-1); (e) index algebra of "
     "parent/lchild/rchild/sibling/needed_for; (f) HashTree pads with empty_leaf_hash(i) and builds rows with "
     "pair_hash(last[2i], last[2i+1]); leaf arguments are merged into the same checked map as hashes; (g) writer "
     "and verifier agree on first_leaf_num and row halving, add rows only on the edge where the newest row has more "
@@ -22,7 +26,10 @@ EXPLANATION = (
     "(or the indices are range-checked on every path to the read). "
     "Undecided: hash collision freedom; value-level equality of computed roots; that num_levels / the size of "
     "hashes_to_check equals the depth of the deepest node (an off-by-one there is an IndexError/NameError crash "
-    "that rule (i) only turns into a rolled-back rejection when it is an IndexError); the bounds checks inside "
+    "that rule (i) only turns into a rolled-back rejection when it is an IndexError; decided only when the work "
+    "list is a mapping filled on demand, where nothing would raise); work lists that are not `for LEVEL in ..: pop from "
+    "WORK[LEVEL]` (a heap, a while loop over a level counter, enumerate over the list of sets) are reported as "
+    "ANALYSIS-ERROR; the bounds checks inside "
     "parent/lchild/rchild/needed_for (they guard API misuse, the walk itself stops at the root by rule (e)); "
     "exceptions other than IndexError that escape the region without rollback (AssertionError of the "
     "parent_level assert, TypeError for non-integer keys); that a conflict between the `hashes` and `leaves` "
@@ -306,33 +313,68 @@ def run(ctx: Context, P: str = "C35"):
                 return bool(f) and f[0] == "==" and "0" in (f[1], f[2])
             for (t, w) in find_path_avoiding(cfg, lambda n, _c=cn: n is _c, gate_edge=is_root):
                 r.violation(fn, fn.loc(cn.ast), "a non-root node can be skipped without verification", w)
-        # every level >= 1 is processed, deepest first
-        lv = [n for n in cfg.nodes if n.kind == "iter" and _in_try_body(fn, n.ast) and contains_call(n.ast.iter, "range")
-              and any(calls_at(m, "pop") for (m, _s) in _reach(cfg, n) if m.kind == "stmt")]
+        # every level >= 1 is processed, deepest first - including the levels that receive their first entry while
+        # the walk is under way (a computed parent lands one level up, whether or not the offer had a hash there)
+        lv = []
+        for pn_ in pops:
+            ws = fnorm.resolve(pn_, calls_at(pn_, "pop")[0].func.value)
+            # a copy of the level's set taken when the level is entered is complete: entries only ever arrive
+            # from the level below, which is finished by then (rule on the enqueue level above)
+            while isinstance(ws, ast.Call) and ((call_name(ws) in ("set", "list") and len(ws.args) == 1 and not ws.keywords)
+                                                or (call_tail(ws) == "copy" and isinstance(ws.func, ast.Attribute) and not ws.args)):
+                ws = fnorm.resolve(pn_, ws.args[0] if ws.args else ws.func.value)
+            if not (isinstance(ws, ast.Subscript) and isinstance(ws.value, ast.Name) and isinstance(ws.slice, ast.Name)):
+                continue
+            for n in cfg.nodes:
+                if n.kind == "iter" and n.id not in hreach and _in_try_body(fn, n.ast) and ws.slice.id in node_stores(n) \
+                        and any(x is pn_.ast for st_ in n.ast.body for x in ast.walk(st_)):
+                    lv.append((n, ws.value.id))
         if not lv:
-            raise AnchorVanished("set_hashes: the loop over tree levels was not found")
-        it = lv[0].ast.iter
-        r.site(fn, lv[0].ast, "level loop")
-        verdict = None     # None = cannot decide
-        if isinstance(it, ast.Call) and call_tail(it) == "reversed" and it.args and isinstance(it.args[0], ast.Call) \
-                and call_tail(it.args[0]) == "range":
-            ra = it.args[0].args
-            if len(ra) == 1:
-                verdict = True
-            elif len(ra) == 2 and isinstance(ra[0], ast.Constant) and isinstance(ra[0].value, int):
-                verdict = ra[0].value <= 1
-        elif isinstance(it, ast.Call) and call_tail(it) == "range" and len(it.args) == 3:
-            st = N(fn).poly(it.args[2]).const_value()
-            lo = N(fn).poly(it.args[1]).const_value()
-            if st is not None and lo is not None:
-                verdict = (st == -1 and lo <= 0)
-        elif isinstance(it, ast.Call) and call_tail(it) == "range":
-            verdict = False    # ascending: parents would be visited before the children that derive them
-        if verdict is None:
-            raise AnalysisError("set_hashes: cannot decide which tree levels the loop %s visits" % src(fn, it))
-        r.require(verdict, fn, fn.loc(lv[0].ast), "the level loop %s does not visit every level below the root deepest-first: "
-                  "hashes of a skipped level (e.g. the root's children) are stored without being checked against "
-                  "their parent" % src(fn, it))
+            raise AnchorVanished("set_hashes: the loop over tree levels (for LEVEL in ..: pop from WORK[LEVEL]) was not found")
+        for (ln_, work) in lv:
+            it = ln_.ast.iter
+            r.site(fn, ln_.ast, "level loop")
+            seq = _level_seq(fn, cfg, fnorm, ln_, it, work)
+            on_demand = _work_keys(fn, cfg, fnorm, ln_, work, 2) == ("snapshot", None)
+            if (seq is None or on_demand) and _reads_content(fn, fnorm, ln_, it, work, length_too=on_demand):
+                # (the length of a mapping that is filled on demand is the number of levels that hold something)
+                seq = ("snapshot", None)
+            if seq is None:
+                raise AnalysisError("set_hashes: cannot decide which tree levels the loop %s visits" % src(fn, it))
+            kind, direction = seq
+            if kind == "enumerate":
+                raise AnalysisError("set_hashes: the level loop %s walks the work list %s itself; cannot decide its order" % (
+                    src(fn, it), work))
+            if kind == "snapshot":
+                r.violation(fn, fn.loc(ln_.ast), "the level loop `for %s in %s` visits the levels that the work list %s held "
+                            "when the loop started (a snapshot of its keys / of its non-empty levels): a computed parent that "
+                            "is enqueued during the walk on a level without an offered hash is never dequeued - no sibling "
+                            "check, no NotEnoughHashesError, no comparison with the known parent - and stays in the tree "
+                            "unvalidated when set_hashes returns" % (src(fn, ln_.ast.target), src(fn, it), work))
+                continue
+            ok = r.require(kind == "dense" and direction == "desc", fn, fn.loc(ln_.ast),
+                           "the level loop %s does not visit every level below the root deepest-first: "
+                           "hashes of a skipped level (e.g. the root's children) are stored without being checked against "
+                           "their parent" % src(fn, it))
+            if ok and on_demand:
+                # a list of per-level sets rejects an entry beyond its last level with IndexError (rolled back, rule
+                # (i)); a mapping filled on demand takes it silently, so here the first level visited must be decided
+                top = _top_level(fn, fnorm, ln_, it)
+                deepest = parse_expr("depth_of(len(self) - 1)")
+                slack = None
+                if top is not None:
+                    try:
+                        slack = ast.literal_eval(fnorm.norm(ln_, ast.BinOp(left=top, op=ast.Sub(), right=deepest)))
+                        slack = slack if isinstance(slack, int) and not isinstance(slack, bool) else None
+                    except Exception:
+                        slack = None
+                if slack is None:
+                    raise AnalysisError("set_hashes: cannot decide whether the level loop %s starts at the deepest level "
+                                        "depth_of(len(self) - 1)" % src(fn, it))
+                r.require(slack >= 0, fn, fn.loc(ln_.ast), "the level loop %s starts %d level(s) above the deepest level "
+                          "depth_of(len(self) - 1) while the work list %s accepts entries for any level: the hashes enqueued on "
+                          "the deepest level (the leaves) are never dequeued and stay in the tree unvalidated" % (
+                              src(fn, it), -slack, work))
 
     # -- (e) index algebra -------------------------------------------------
     with ctx.rule(P + ".5", "R6", "CompleteBinaryTreeMixin: parent=(i-1)//2, lchild=2i+1, rchild=2i+2, sibling is the "
@@ -635,6 +677,152 @@ def run(ctx: Context, P: str = "C35"):
                             "call; an index outside the tree raises IndexError, which the rollback handler (catches %s) lets "
                             "through: the hashes stored so far stay in the tree unvalidated, and a later offer that repeats one "
                             "of them is accepted without any check against the root" % (src(fn, x), sorted(hn9)))
+
+
+def _const(fn, e):
+    try:
+        return N(fn).poly(e).const_value()
+    except Exception:
+        return None
+
+
+def _unique_binding(cfg, name):
+    ds = [n for n in cfg.stmt_nodes() if name in node_stores(n)]
+    if len(ds) == 1 and isinstance(ds[0].ast, ast.Assign) and len(ds[0].ast.targets) == 1 \
+            and isinstance(ds[0].ast.targets[0], ast.Name):
+        return ds[0].ast.value
+    return None
+
+
+def _resolve_local(cfg, fnorm, node, e):
+    """Defining expression of the local name `e` at `node` (unique reaching definition; for list / comprehension
+    values, which FlowNorm does not substitute, the only binding in the function).  None = not resolvable."""
+    rv = fnorm.resolve(node, e)
+    if not (rv is e or (isinstance(rv, ast.Name) and rv.id == e.id)):
+        return rv
+    return _unique_binding(cfg, e.id)
+
+
+def _flip(seq):
+    if seq is None or seq[1] is None:
+        return seq
+    return (seq[0], "asc" if seq[1] == "desc" else "desc")
+
+
+def _level_seq(fn, cfg, fnorm, node, e, work, depth=6):
+    """Which levels, in which order, does iterating `e` yield?  (kind, direction): kind `dense` = every level from
+    (at most) 1 up to the bound, `skip` = starts above level 1, `snapshot` = the keys the sparse work mapping holds at
+    that moment, `enumerate`; direction asc / desc / None.  None = not understood."""
+    if depth <= 0:
+        return None
+    if isinstance(e, ast.Name):
+        if e.id == work:
+            return _work_keys(fn, cfg, fnorm, node, work, depth)
+        rv = _resolve_local(cfg, fnorm, node, e)
+        if rv is None:
+            return None
+        return _level_seq(fn, cfg, fnorm, node, rv, work, depth - 1)
+    if not isinstance(e, ast.Call):
+        return None
+    tail = call_tail(e)
+    if isinstance(e.func, ast.Attribute) and tail == "keys" and not e.args and attr_path(e.func.value) == work:
+        return _work_keys(fn, cfg, fnorm, node, work, depth)
+    if not isinstance(e.func, ast.Name):
+        return None
+    if tail == "range" and not e.keywords:
+        a = e.args
+        if len(a) == 1:
+            return ("dense", "asc")
+        lo = _const(fn, a[0])
+        if len(a) == 2:
+            return None if lo is None else (("dense" if lo <= 1 else "skip"), "asc")
+        st = _const(fn, a[2])
+        if len(a) == 3 and st == 1:
+            return None if lo is None else (("dense" if lo <= 1 else "skip"), "asc")
+        if len(a) == 3 and st == -1:
+            stop = _const(fn, a[1])
+            return None if stop is None else (("dense" if stop <= 0 else "skip"), "desc")
+        return None
+    if tail == "reversed" and len(e.args) == 1 and not e.keywords:
+        return _flip(_level_seq(fn, cfg, fnorm, node, e.args[0], work, depth - 1))
+    if tail in ("list", "tuple") and len(e.args) == 1 and not e.keywords:
+        return _level_seq(fn, cfg, fnorm, node, e.args[0], work, depth - 1)
+    if tail == "sorted" and len(e.args) == 1:
+        inner = _level_seq(fn, cfg, fnorm, node, e.args[0], work, depth - 1)
+        if inner is None or inner[0] == "enumerate":
+            return inner
+        rev = False
+        for k in e.keywords:
+            if k.arg == "reverse" and isinstance(k.value, ast.Constant):
+                rev = bool(k.value.value)
+            else:
+                return ("snapshot", None) if inner[0] == "snapshot" else None
+        return (inner[0], "desc" if rev else "asc")
+    if tail == "enumerate" and e.args and attr_path(e.args[0]) == work:
+        return ("enumerate", None)
+    return None
+
+
+def _work_keys(fn, cfg, fnorm, node, work, depth):
+    """Iterating the work mapping itself yields its keys: all levels only if it was built with one entry per level
+    ({L: set() for L in range(..)}); a mapping that is filled on demand (defaultdict, {}, dict()) has only the levels
+    that received an entry so far."""
+    v = _unique_binding(cfg, work)
+    if v is None:
+        return None
+    if isinstance(v, ast.DictComp) and len(v.generators) == 1 and not v.generators[0].ifs \
+            and isinstance(v.key, ast.Name) and isinstance(v.generators[0].target, ast.Name) \
+            and v.key.id == v.generators[0].target.id:
+        return _level_seq(fn, cfg, fnorm, node, v.generators[0].iter, work, depth - 1)
+    if isinstance(v, ast.Dict) and not v.keys:
+        return ("snapshot", None)
+    if isinstance(v, ast.Call) and call_tail(v) in ("defaultdict", "dict", "OrderedDict") and \
+            not (call_tail(v) != "defaultdict" and (v.args or v.keywords)):
+        return ("snapshot", None)
+    if isinstance(v, (ast.List, ast.ListComp)):
+        return None          # iterating a list of sets yields the sets, not levels
+    return None
+
+
+def _top_level(fn, fnorm, node, e, depth=6):
+    """The first (largest) level a dense descending sequence yields, as an expression; None = not understood."""
+    if depth <= 0:
+        return None
+    if isinstance(e, ast.Name):
+        rv = _resolve_local(fn.cfg(), fnorm, node, e)
+        if rv is None:
+            return None
+        return _top_level(fn, fnorm, node, rv, depth - 1)
+    if not (isinstance(e, ast.Call) and isinstance(e.func, ast.Name)):
+        return None
+    tail = call_tail(e)
+    if tail == "range" and e.args and not e.keywords:
+        if len(e.args) == 3 and _const(fn, e.args[2]) == -1:
+            return e.args[0]
+        if len(e.args) <= 2 or _const(fn, e.args[2]) == 1:
+            stop = e.args[0] if len(e.args) == 1 else e.args[1]
+            return ast.BinOp(left=stop, op=ast.Sub(), right=ast.Constant(value=1))
+        return None
+    if tail in ("reversed", "sorted", "list", "tuple") and len(e.args) == 1:
+        return _top_level(fn, fnorm, node, e.args[0], depth - 1)
+    return None
+
+
+def _reads_content(fn, fnorm, node, e, work, depth=6, length_too=False):
+    """Does the value of `e` depend on what the work list holds (beyond its length)?"""
+    if isinstance(e, ast.Call) and call_tail(e) == "len" and isinstance(e.func, ast.Name) and not length_too:
+        return False
+    if isinstance(e, ast.Name):
+        if e.id == work:
+            return True
+        if depth <= 0:
+            return False
+        rv = _resolve_local(fn.cfg(), fnorm, node, e)
+        if rv is None:
+            return False
+        return _reads_content(fn, fnorm, node, rv, work, depth - 1, length_too)
+    return any(_reads_content(fn, fnorm, node, x, work, depth, length_too) for x in ast.iter_child_nodes(e))
+
 
 
 def _infeasible(lab) -> bool:
